@@ -1,6 +1,7 @@
 import CacheVerif.Proofs.ProtoLocks
 import CacheVerif.Proofs.ProtoHold
 import CacheVerif.Proofs.ProtoData
+import CacheVerif.Proofs.ProtoRange
 import CacheVerif.Proofs.DeepTrace
 import CacheVerif.Proofs.DeepTraceOf
 /-!
@@ -101,6 +102,23 @@ theorem C13_mu_hold_bounded (s : St K V) (h : Reach p s) (u : Tid) (hh : holdsMu
       refine ⟨{ g := g', l := fun x => if x = u then l' else s.l x }, by simp [step, hts], ?_⟩
       have := Proofs.ProtoHold.mu_hold_step p u s.g (s.l u) c g' l' hh hts
       simpa using this
+
+/-- **a resize lowers the `resizing` flag after a bounded number of the resizer's own steps**: every step the thread that owns
+the flag takes either lowers it or strictly decreases a measure bounded by 3·(root buckets of the table being copied) +
+(counter stripes) + 9.  The resizer can be blocked only while it waits for a bucket lock or for `resizeMu`, whose holders
+need boundedly many, always enabled, steps (`C13_lock_hold_bounded`, `C13_mu_hold_bounded`); everybody parked on the
+condition variable is then woken (`C13_no_lost_wakeup`). -/
+theorem C13_resize_bounded (hmin : 0 < p.minLen) (s s' : St K V) (h : Reach p s) (u : Tid) (c : Choice K V)
+    (hr : isResizer (s.l u).pc = true) (hs : step p s u c = some s') :
+    isResizer (s'.l u).pc = false ∨
+    (isResizer (s'.l u).pc = true ∧
+      Proofs.ProtoHold.flagMeasure p s'.g (s'.l u) < Proofs.ProtoHold.flagMeasure p s.g (s.l u)) := by
+  have hi := inv_reach p s h
+  obtain ⟨g', l', hts, rfl⟩ := Proofs.ProtoRange.step_cases p s s' u c hs
+  have hlen := Proofs.ProtoData.step_len p u s.g (s.l u) c g' l' hts
+  have := Proofs.ProtoHold.flag_hold_step p u s.g (s.l u) c g' l' hr hts
+    (fun hu => hlen _ ((hi.2 u).rtblLt hu)) (hlen _ hi.1.2)
+  simpa using this
 
 /-- **a writer retries only before it has called the user function** (resize in progress, newer table, need to
 grow): after the call it proceeds to commit, unlock and return -/
